@@ -87,6 +87,8 @@ def check_term(c) -> str:
         return "(CEvalV2 %s %s %s %s %s)" % (
             coq_float(c["rate"]), coq_Z(c["T"]), opt(c["default"], fl), fl(c["extra"]), impl,
         )
+    if k == "multinomial":
+        return "(CMultinomial %s %s %s)" % (fl(c["probs"]), fl(c["us"]), zl(c["impl"]))
     if k == "index":
         impl = sum_l(coq_Z(c["impl"])) if c["status"] == "ok" else sum_r(c["impl"])
         return "(CIndex %s %s %s %s)" % (coq_float(c["t"]), coq_float(c["tol"]), fl(c["times"]), impl)
